@@ -46,6 +46,17 @@ class Run:
         if sample is not None and len(self.samples) < 8:
             self.samples.append(sample)
 
+    def reported_violations(self):
+        """at most 3 per (first component of the case id, witness class), 200 in all: a class with many instances (e.g. a
+        listed finding) must not crowd out a different violation"""
+        seen, out = {}, []
+        for v in self.violations:
+            k = (str(v.get("case", "")).split("/")[0], v.get("witness_class"))
+            seen[k] = seen.get(k, 0) + 1
+            if seen[k] <= 3:
+                out.append(v)
+        return out[:200]
+
     def violation(self, case_id, what, witness_class, contract=None, inp=None):
         mod = sys.modules["__main__"].__spec__.name if getattr(sys.modules["__main__"], "__spec__", None) else "bounded"
         self.violations.append(
@@ -68,7 +79,7 @@ class Run:
             "evaluations": self.evaluations,
             "distinct_nontrivial": len(self.distinct),
             "contract_evaluations": self.contract_evaluations,
-            "violations": self.violations[:50],
+            "violations": self.reported_violations(),
             "samples": self.samples,
             "exhaustive": exhaustive,
             "wall": round(time.time() - self.t0, 2),
